@@ -9,6 +9,7 @@ from harness.props import engine_common as ec
 from harness.props import resp_trace as rt
 from harness.drivers import engine_encode, engine_cases_resp
 from harness.drivers import wait_cases as wc
+from harness.drivers import deverr_driver as dd
 
 ID = "C12"
 PROP_FILE = "Props/C12.v"
@@ -38,10 +39,14 @@ def is_wait(case):
     return case.get("fam") == "waitgroup"
 
 
+def is_deverr(case):
+    return case.get("fam") == "deverr"
+
+
 def impl_batch(all_cases):
     from harness.drivers import wait_driver
     idx_w = [i for i, c in enumerate(all_cases) if is_wait(c)]
-    idx_e = [i for i, c in enumerate(all_cases) if not is_wait(c)]
+    idx_e = [i for i, c in enumerate(all_cases) if not is_wait(c) and not is_deverr(c)]
     out = [None] * len(all_cases)
     if idx_e:
         for i, o in zip(idx_e, ec.impl_batch([all_cases[i] for i in idx_e])):
@@ -51,10 +56,15 @@ def impl_batch(all_cases):
         if o.get("errors"):                      # a lost race with the machine's load is retried once
             o = wait_driver.run_case(all_cases[i])
         out[i] = o
+    for i, c in enumerate(all_cases):
+        if is_deverr(c):
+            out[i] = dd.run_case(c)
     return out
 
 
 def describe(case):
+    if is_deverr(case):
+        return "deverr %s%s" % (case["form"], " async" if case["async"] else "")
     if is_wait(case):
         w = [st["msg"] for st in case["plan"] if st["msg"][0] == "wait"]
         tag = "wait"
@@ -69,6 +79,8 @@ def describe(case):
 
 
 def nontrivial(case, obs):
+    if is_deverr(case):
+        return bool(obs.get("raised"))
     if is_wait(case):
         return any(e[0] == "done" for e in obs.get("events", []))
     return ec.nontrivial(case, obs)
@@ -169,7 +181,7 @@ def wait_finding(obs):
 
 
 def cases(rng, tier):
-    return ec.gen_cases(rng, tier) + engine_cases_resp.gen(rng, tier) + wc.gen(rng, tier)
+    return ec.gen_cases(rng, tier) + engine_cases_resp.gen(rng, tier) + wc.gen(rng, tier) + dd.gen(rng, tier)
 
 
 def problems(obs):
@@ -182,6 +194,8 @@ def problems(obs):
 
 
 def oracle(case, obs):
+    if is_deverr(case):
+        return dd.oracle(case, obs)
     if obs.get("errors"):
         return "driver: " + str(obs["errors"][0])[:200]
     if is_wait(case):
@@ -204,6 +218,8 @@ def oracle(case, obs):
 
 
 def finding(case, obs):
+    if is_deverr(case):
+        return None
     if is_wait(case):
         bad, strict, cancelled = wait_walk(obs)
         return None if bad else wait_finding(obs)     # only the strict reading of 'True' may fail, only in a class
@@ -213,8 +229,8 @@ def finding(case, obs):
 def coq_term(case, obs):
     """the model reproduces the observation, and both Coq monitors run on the model's trace agree with the
     implementation-side monitors run on the real trace (response discipline of every call's plan; status promptness)"""
-    if obs.get("errors") or case.get("no_model"):
-        return None
+    if is_deverr(case) or obs.get("errors") or case.get("no_model"):
+        return None           # deverr: ORACLE ONLY (all device-calling commands of the real engine, most are not in the model)
     if is_wait(case):
         return wait_term(case, obs)
     try:
